@@ -201,3 +201,24 @@ From Juniper Require Translated.CensusC14.
 Theorem C14_source_census : Translated.CensusC14.census_expected_C14.
 Proof. exact Translated.CensusC14.census_C14_ok. Qed.
 Print Assumptions C14_source_census.
+
+(* ---- and complete (Conc/ParMapMatcherComplete.v): wherever the exploration converged (an executable test, evaluated
+        for every history the check rejects), a rejected history is the visible trace of NO run of the unreduced
+        model; acceptance is then equivalent to being a trace of the model ---- *)
+From Juniper Require Conc.ParMapMatcherComplete.
+
+Theorem C14_iterator_matcher_exact : forall fv g par bufsz items gated evs,
+    ParMapMatcherComplete.MIC.mi_converged fv g par bufsz items gated evs = true ->
+    (ParMap.MI.accepts_history fv g par bufsz items gated evs = true <->
+     exists ls s, GoLTS.run (ParMap.MI.qstep fv) (ParMap.MI.init g par bufsz items gated) ls = Some s /\
+                  ParMapMatcher.MIM.mi_trace ls = evs).
+Proof. exact ParMapMatcherComplete.MIC.mi_accepts_iff. Qed.
+
+Theorem C14_stream_matcher_exact : forall fv c evs,
+    ParMapMatcherComplete.MSC.ms_ws_converged fv c evs = true ->
+    (ParMapMatcher.MSM.accepts_history_ws fv c evs = true <->
+     exists ls s, GoLTS.run (ParMap.MS.qstep fv) (ParMap.MS.init c) ls = Some s /\ ParMapMatcher.MSM.ms_trace ls = evs).
+Proof. exact ParMapMatcherComplete.MSC.ms_ws_accepts_iff. Qed.
+
+Print Assumptions C14_iterator_matcher_exact.
+Print Assumptions C14_stream_matcher_exact.
